@@ -18,8 +18,8 @@ import sys
 
 ROOT = os.path.dirname(os.path.dirname(os.path.abspath(__file__)))
 REPO = os.environ.get("VERIF_REPO", "/repo")      # a snapshot of the repository when run through `vp run --with-repo`
-WT = "/tmp/sv-worktree"
-TARGET = "/tmp/sv-target"
+WT = "/tmp/sv-worktree" + os.environ.get("SV_TAG", "")
+TARGET = "/tmp/sv-target" + os.environ.get("SV_TAG", "")
 
 
 def sh(cmd, cwd=None, timeout=1800, env=None):
